@@ -65,7 +65,7 @@ PROPS = {
                 "that was displaced from its home slot, rehashed up and down, and had a probe sequence wrap around slot 0; "
                 "distinct = distinct event-trace hashes.",
         "stages": _cont(2, 20000, 600_000, 10),
-        "rare_probes": ["new.plain_struct_elems", "table.update_displaced", "table.rehash_up", "table.rehash_down", "table.probe_wrapped", "table.resize0", "map.absent_get", "map.absent_rem"],
+        "rare_probes": ["elem.string_edited_in_place", "bad.injected", "new.plain_struct_elems", "table.update_displaced", "table.rehash_up", "table.rehash_down", "table.probe_wrapped", "table.resize0", "map.absent_get", "map.absent_rem"],
         "assumptions": ["sequential consistency inside one thread", "reference model semantics as in DESIGN.md appendix A",
                         "self-assignment, mutation during iteration and in-place key mutation are outside the workload"],
     },
@@ -77,7 +77,7 @@ PROPS = {
                 "node count, height <= 2*log2(n+1)) through the read-only accessor hook. Non-trivial = the run exercised at least 3 "
                 "distinct removal-repair situations (classified from the tree shape just before each rem); distinct = distinct trace hashes.",
         "stages": _cont(3, 20000, 600_000, 10),
-        "rare_probes": ["new.plain_struct_elems", "tree.rem_root", "tree.rem_two_children", "tree.fix_red_sibling", "tree.fix_black_sib_red_parent",
+        "rare_probes": ["elem.string_edited_in_place", "bad.injected", "new.plain_struct_elems", "tree.rem_root", "tree.rem_two_children", "tree.fix_red_sibling", "tree.fix_black_sib_red_parent",
                         "tree.fix_black_sib_black_parent", "tree.fix_far_nephew_red", "tree.fix_near_nephew_red", "tree.rem_black_one_child"],
         "assumptions": COMMON_ASSUME,
     },
@@ -89,7 +89,7 @@ PROPS = {
                 "sortedness + multiset equality. Non-trivial = the run crossed >= 2 Array growths and >= 1 shrink of the backing store "
                 "and used negative indices on >= 3 operation kinds; distinct = distinct trace hashes.",
         "stages": _cont(4, 20000, 600_000, 10),
-        "rare_probes": ["new.plain_struct_elems", "seq.array_grow", "seq.array_shrink", "seq.neg_get", "seq.neg_set", "seq.neg_pop_at", "seq.neg_push_at",
+        "rare_probes": ["elem.string_edited_in_place", "bad.injected", "new.plain_struct_elems", "seq.array_grow", "seq.array_shrink", "seq.neg_get", "seq.neg_set", "seq.neg_pop_at", "seq.neg_push_at",
                         "seq.sort_with_duplicates", "seq.rem_duplicate", "seq.concat_cross", "seq.resize_pad", "seq.resize_reserve"],
         "assumptions": COMMON_ASSUME + ["push_at with a negative index is checked weakly (inserted once, others keep order)",
                                        "resize(n > len) may reserve or pad with zero elements"],
@@ -118,7 +118,7 @@ PROPS = {
                 "compared in the run; distinct = distinct trace hashes. The pure value-level clause (hash_data vs MurmurHash, scalar "
                 "corner values alone) is not claimed here.",
         "stages": _cont(10, 20000, 600_000, 10),
-        "rare_probes": ["c10.pairs", "c10.twins", "c10.swaps", "copy", "assign", "assign.cross_kind"],
+        "rare_probes": ["c10.unaligned_strings", "c10.value_swaps", "c10.pairs", "c10.twins", "c10.swaps", "copy", "assign", "assign.cross_kind"],
         "assumptions": COMMON_ASSUME,
     },
     "C12": {
@@ -147,7 +147,7 @@ PROPS = {
                 "(arena ledger; ASan red zones). Non-trivial = >= 1 rem in the middle and >= 1 grow after a shrink; distinct = distinct "
                 "trace hashes.",
         "stages": _cont(16, 24000, 700_000, 10),
-        "rare_probes": ["str.rem_middle", "str.rem_absent", "str.grow_after_shrink", "str.shrink", "str.reserve", "str.print_to"],
+        "rare_probes": ["bad.assign-no-c_str", "str.rem_middle", "str.rem_absent", "str.grow_after_shrink", "str.shrink", "str.reserve", "str.print_to"],
         "assumptions": COMMON_ASSUME,
     },
     "C01": {
@@ -161,7 +161,7 @@ PROPS = {
                 "every object the shadow graph reaches must be un-finalised, its block live, its canary intact. Non-trivial = at least one "
                 "collection proven (a garbage object was released) while an object was reachable only through a non-stack path; distinct = distinct trace hashes.",
         "stages": _heap(1, 4000, 120_000, 10),
-        "rare_probes": ["heap.register_root", "heap.tls_set", "heap.new_root", "heap.link_mapkey", "heap.link_mapval", "heap.link_seq", "heap.copy", "heap.max_chain", "heap.container_clear"],
+        "rare_probes": ["heap.constructor_allocates", "gc.primed_ops", "heap.deep_copy", "heap.deep_copy_children", "heap.destructor_allocations", "heap.box_owns_root", "heap.register_root", "heap.tls_set", "heap.new_root", "heap.link_mapkey", "heap.link_mapval", "heap.link_seq", "heap.copy", "heap.max_chain", "heap.container_clear"],
         "assumptions": ["never asserts that something unreachable was collected", "no interior pointers, no pointers in unscanned malloc memory, no cross-thread reachability",
                         "objects allocated while the collector is stopped and raw objects keep nothing alive"],
     },
@@ -175,7 +175,7 @@ PROPS = {
                 "a Box ownership link or a stop/start window in the plan, and objects released by the teardown; "
                 "distinct = distinct trace hashes.",
         "stages": _heap(6, 4000, 120_000, 10),
-        "rare_probes": ["heap.new_box", "heap.new_box_chain", "heap.del_box", "heap.del_root", "heap.del_raw", "heap.stop", "heap.new_while_stopped",
+        "rare_probes": ["gc.primed_ops", "heap.destructor_allocations", "heap.box_owns_root", "heap.owned_dies_with_swept_owner", "heap.failed_constructor", "heap.new_box", "heap.new_box_chain", "heap.del_box", "heap.del_root", "heap.del_raw", "heap.stop", "heap.new_while_stopped",
                         "heap.del_while_stopped", "heap.del_unregistered", "heap.freed_at_teardown"],
         "assumptions": ["roots the plan did not del_root and raw objects it did not del_raw are expected to survive", "deleting an object that a live Box still owns is outside the workload",
                         "only the blocks of ledger objects gate; other arena blocks alive after teardown are diagnostics"],
@@ -188,7 +188,7 @@ PROPS = {
                 "read-only accessor hook: each registered object once, root flag as allocated, count matches, no mark left set. Non-trivial = a "
                 "collection proven and the registry rehashed up >= 3 times and down >= 1 time in the run; distinct = distinct trace hashes.",
         "stages": _heap(17, 4000, 200_000, 10),
-        "rare_probes": ["reg.grow", "reg.shrink", "reg.probe_wrapped", "heap.del", "heap.del_root", "heap.del_box"],
+        "rare_probes": ["heap.box_owns_root", "heap.owned_dies_with_swept_owner", "heap.destructor_allocations", "reg.grow", "reg.shrink", "reg.probe_wrapped", "heap.del", "heap.del_root", "heap.del_box"],
         "assumptions": ["an object deleted while the collector is stopped may stay registered until a later collection"],
     },
     "C19": {
@@ -200,7 +200,7 @@ PROPS = {
                 "ledger reports any free of a non-heap pointer and any double free. Non-trivial = >= 2 wrong deallocations injected in the run; "
                 "distinct = distinct trace hashes.",
         "stages": lambda tier: _cont(19, 3000, 300_000, 10)(tier) + _heap(19, 3000, 80_000, 10)(tier),
-        "rare_probes": ["bad.dealloc-embedded", "bad.dealloc-stack-int", "bad.del_raw-stack-string", "bad.dealloc-static-type",
+        "rare_probes": ["heap.stop", "heap.del_while_stopped", "bad.dealloc-embedded", "bad.dealloc-stack-int", "bad.del_raw-stack-string", "bad.dealloc-static-type",
                         "bad.destruct-stack-tuple", "bad.pop_at-stack-tuple", "bad.resize-stack-string"],
         "assumptions": ["default (checked) build only"],
     },
@@ -219,7 +219,7 @@ PROPS = {
             {"scen": "exc", "env": {}, "runs": 40000 if tier == "quick" else 2_000_000, "configs": ["plain"], "timeout": 30},
             {"scen": "exc", "env": {}, "runs": 4000 if tier == "quick" else 200_000, "configs": ["asan"], "first": 10_000_000, "timeout": 30},
         ],
-        "rare_probes": ["exc.outer_completes_after_inner_handled", "exc.throw_in_handler", "exc.lexical_nesting", "exc.lexical_nesting3",
+        "rare_probes": ["exc.throw_twin", "exc.show_with_exception", "exc.destructor_with_exception", "exc.throw_at_collection_point", "exc.garbage_objects", "exc.outer_completes_after_inner_handled", "exc.throw_in_handler", "exc.lexical_nesting", "exc.lexical_nesting3",
                         "exc.throw_from_library", "exc.uncaught_programs", "exc.thread_programs"],
         "assumptions": ["return/goto out of a try block and signals are outside the workload", "the model does not look at messages"],
     },
@@ -242,7 +242,7 @@ PROPS = {
             # fault enumeration proper: every fault kind at every operation of short base plans (96 members per family)
             {"scen": "files", "env": {"enum": 1}, "runs": 96 * (60 if tier == "quick" else 3000), "configs": ["plain"], "first": 60_000_000, "chunk": 96},
         ],
-        "rare_probes": ["file.reopen", "file.op_after_close", "file.with", "file.del", "file.scan", "file.read_to_eof", "file.seek_origin0",
+        "rare_probes": ["file.print_long_piece", "file.reopen", "file.op_after_close", "file.with", "file.del", "file.scan", "file.read_to_eof", "file.seek_origin0",
                         "file.seek_origin1", "file.seek_origin2", "io.fault_fired", "io.fault_raised_ioerror", "io.close_fault", "io.short_read"],
         "assumptions": ["glibc stdio over fopencookie is the trusted C library view", "a legal short write that stdio retries cannot be produced through fopencookie and is not claimed",
                         "after an injected fault the content of that file and the position of that stream are no longer compared"],
@@ -270,7 +270,7 @@ PROPS = {
             {"scen": "threads", "env": {}, "runs": 1500 if tier == "quick" else 120_000, "configs": ["fine"], "first": 30_000_000, "timeout": 90, "chunk": 20},
             {"scen": "exc", "env": {"threads": 3}, "runs": 1500 if tier == "quick" else 150_000, "configs": ["fine"], "first": 40_000_000, "timeout": 60},
         ],
-        "rare_probes": ["thr.join_before_finish", "thr.join_after_finish", "thr.trylock_spins", "thr.alloc_threads", "sched.lib_switches", "sched.switches", "exc.thread_programs"],
+        "rare_probes": ["thr.trylock_failed_then_lock", "thr.main_in_section_at_start", "thr.join_before_finish", "thr.join_after_finish", "thr.trylock_spins", "thr.alloc_threads", "sched.lib_switches", "sched.switches", "exc.thread_programs"],
         "assumptions": ["interleaving granularity is the yield point under sequential consistency; weak-memory effects are not simulated",
                         "stop(thread) (signal based) and objects handed between threads are outside the workload"],
     },
@@ -291,7 +291,7 @@ PROPS = {
             {"scen": "dispatch", "env": {}, "runs": 400 if tier == "quick" else 6_000, "configs": ["asan"], "first": 10_000_000, "timeout": 90, "chunk": 10},
             {"scen": "dispatch", "env": {}, "runs": 600 if tier == "quick" else 15_000, "configs": ["fine"], "first": 20_000_000, "timeout": 90, "chunk": 10},
         ],
-        "rare_probes": ["sched.sw_in_cache_fill", "sched.sw_in_class_memo", "sched.sw_in_lazy_header", "disp.concurrent_sweeps", "disp.empty_member",
+        "rare_probes": ["disp.repeated_class_declarations", "disp.same_named_types", "disp.casts_to_same_named_type", "disp.types_replaced", "sched.sw_in_cache_fill", "sched.sw_in_class_memo", "sched.sw_in_lazy_header", "disp.concurrent_sweeps", "disp.empty_member",
                         "disp.missing_class", "disp.cooled", "disp.casts", "disp.max_instances", "disp.max_threads"],
         "assumptions": ["the benign same-value races on cache slots are not reported as data races (a serialising scheduler hides them from TSan anyway)",
                         "Terminal is excluded: it ends every argument tuple, so it cannot be passed as the type of an error message"],
@@ -324,7 +324,7 @@ PROPS = {
             [{"scen": "exc", "env": {"threads": 2, "nolib": 1}, "runs": 800 if tier == "quick" else 30_000, "configs": [c], "first": 80_000_000, "timeout": 30,
               "differential": True, "diff_keys": ["verdict"]} for c in (["plain", "ndebug-o2", "nocache-o2", "ngc-o2", "o3"] if tier == "quick" else
               ["plain", "o0", "o3", "ndebug-o2", "nocache-o2", "ngc-o0", "ngc-o2", "ngc-o3"])]),
-        "rare_probes": ["new.seq", "new.table", "new.tree", "new.string", "seq.sort", "copy", "assign", "str.print_to", "exc.outer_completes_after_inner_handled",
+        "rare_probes": ["elem.string_edited_in_place", "new.seq", "new.table", "new.tree", "new.string", "seq.sort", "copy", "assign", "str.print_to", "exc.outer_completes_after_inner_handled",
                         "view.iterated", "heap.tls_set", "exc.thread_programs"],
         "assumptions": ["only in-contract programs: error paths behave differently under CELLO_NDEBUG by design", "addresses and Table iteration order are excluded from transcripts"],
     },
